@@ -231,6 +231,13 @@ fn generic_ranges(cx: &mut Ctx, doc: &Doc, method: &str, params: &Value, v: &Val
             // that return a whole-document range and by exactly that end position
             let whole_doc = matches!(method, "textDocument/formatting" | "textDocument/rangeFormatting" | "textDocument/definition"
                 | "textDocument/prepareCallHierarchy" | "callHierarchy/incomingCalls" | "callHierarchy/outgoingCalls");
+            // known finding: the lexer pairs "\n\r" into one line break while the line index pairs "\r\n"; a token
+            // boundary then falls between the `\r` and `\n` of one terminator and converts to a column past the line's text
+            let inside_term = |p: P| (p.0 as usize) < doc.lines.len() && p.1 as usize == doc.lines[p.0 as usize].2 + 1;
+            if doc.text.contains("\n\r") && (inside_term(r.0) || inside_term(r.1)) && r.0 <= r.1 {
+                cx.fail(format!("{method}: result{path}: {e}"), doc.text, method, params, Some("text-contains-lf-cr-sequence"));
+                return;
+            }
             let class = if whole_doc && r.0 == (0, 0) && r.1.0 as usize == doc.lines.len() && r.1.1 == 0 { Some("whole-document-range-ends-at-line-count") } else { None };
             cx.fail(format!("{method}: result{path}: {e}"), doc.text, method, params, class);
             return;
